@@ -18,6 +18,7 @@ CLAIMED = {
  "C13": ("proof", "CheckAndIncreaseNonce: accepted only for a known validator and feeder with nonce = stored+1 (first matching entry, loop invariant), nonce above MaxNonce rejected, rejection leaves store and nonce objects untouched. The ante decorators and the aggregator-side message filter are not under contract."),
  "C16": ("proof", "GetUnbondingCompletionEpoch = current epoch + EpochsUntilUnbonded (exact); AfterUndelegationStarted places a hold and queues the record iff the operator is opting out or its current/previous key is in the validator set, filed under the opt-out finish epoch resp. the completion epoch (guard obligations); hold counts move by exactly one and are refused at the bounds; dogfood EndBlock releases holds only in an epoch-end block. Queue append/clear accessors and AfterEpochEnd are not yet under contract."),
  "C17": ("proof", "exomint AfterEpochEnd: the epoch reward is minted exactly once (and forwarded) when the identifier matches and the reward is non-zero, nothing is minted or changed otherwise (ghost trace of bank calls); the distribution hook precedes the mint hook in app.go (static obligation). Fee allocation arithmetic (AllocateTokens*) is not under contract."),
+ "C18": ("proof", "Partial: the dogfood export accessors GetAllOptOutsToFinish / GetAllConsAddrsToPrune / GetAllUndelegationsToMature are proved to iterate exactly the store prefix their setters write under (guard obligation on the prefix handed to KVStorePrefixIterator, loop invariants over the decode loops); this is the obligation that exposed F-GEN-1 (two exports iterated the opt-out prefix; fixed in e20f1ba). The export/import round trip of the other modules' genesis documents is not under contract (see evidence.unclaimed / DESIGN.md)."),
  "C19": ("proof", "GasToRefund = min(available, consumed div quotient); RefundGas pays leftover*gasPrice from the fee collector to the sender, zero refund moves nothing, negative refund rejected, failure leaves no trace; ApplyTransaction runs the message on a cache context whenever hooks are registered (guard). EVM/state-DB behaviour and the ante decorators are external/unclaimed."),
  "C20": ("proof", "GetTaskID returns old+1 (1 if absent) and stores it; CreateAVSTask draws the id from the counter of the task contract the task is stored under and requires a listed owner; RaiseAndResolveChallenge writes only strictly after the statistical period and within the challenge period, once (guard obligations). SetTaskResultInfo windows and AVS registration uniqueness are not yet under contract."),
 }
@@ -26,6 +27,7 @@ NOT_APPLICABLE = {
  "C08": "hyperproperty over pairs of executions (map order, restart, scheduling): per-function contracts constrain one execution; no relational verifier available in this family here (DESIGN.md 4.21)",
  "C14": "two-run equivalence between the live oracle aggregator and its replay from disk over a graph of package-level pointers/maps of pointers: outside the memory model, would need a second implementation as contract (DESIGN.md 4.21)",
 }
+NOT_APPLICABLE["C11"] = "no-panic over every ABCI entry point is a whole-program reachability property: the engine proves panic-freedom only as a side obligation (pre:/nopanic groups) of the functions already under contract for other properties; a sweep of all BeginBlock/EndBlock/DeliverTx callees would need contracts for the EVM, the SDK module manager and CometBFT, which are outside what this generator models (DESIGN.md 8)"
 WIP = "check not built yet in this session (work in progress; see DESIGN.md plan)"
 
 props = [json.loads(l) for l in open('/verif/properties.jsonl')]
